@@ -1428,7 +1428,16 @@ class AI:
                     if passthrough:
                         outs.append((s2, ev))
                     elif path.endswith("::map"):
-                        outs.append((s2, ("enum", ev[1], ev[2], (self.sym(s2, self.site(s2, ":mapped")),))))
+                        mapped = None
+                        fv_ = self.resolve(s2, args[1])
+                        pv_ = self.resolve(s2, ev[3][0]) if ev[3] else None
+                        if fv_[0] == "fn" and pv_ is not None and pv_[0] == "enum" and pv_[1] == "std::cmp::Ordering":
+                            # `cmp(..).map(Ordering::is_lt)`: the std predicates on a known Ordering (Less, Equal, Greater)
+                            table = {"is_lt": (True, False, False), "is_le": (True, True, False), "is_gt": (False, False, True), "is_ge": (False, True, True),
+                                     "is_eq": (False, True, False), "is_ne": (True, False, True)}.get(str(fv_[2]).split("::")[-1])
+                            if table is not None and pv_[2] < 3:
+                                mapped = ("bool", table[pv_[2]])
+                        outs.append((s2, ("enum", ev[1], ev[2], (mapped if mapped is not None else self.sym(s2, self.site(s2, ":mapped")),))))
                     else:
                         outs.append((s2, self.sym(s2, self.site(s2, ":and_then"))))
                 return outs
